@@ -3,8 +3,8 @@ package engine
 import (
 	"fmt"
 	"go/ast"
-	"os"
 	"go/types"
+	"os"
 	"sort"
 	"strings"
 
@@ -418,6 +418,10 @@ func (e *fnEnc) loopClauses(li *loopInfo) (invs, decs []*Clause) {
 	if c := e.contract; c != nil {
 		for _, cl := range c.Invs {
 			if n := e.clauseLoop(cl); n == li.ordinal || n == allLoops {
+				if e.top && os.Getenv("LHV_FOREIGN_INV") == "" && e.foreignClause(cl) {
+					// an invariant tagged for other properties only is proved in their runs; this run neither proves nor uses it
+					continue
+				}
 				invs = append(invs, cl)
 			}
 		}
@@ -992,4 +996,16 @@ func (e *fnEnc) earlyExitObligations(b *ssa.BasicBlock, preds []*ssa.BasicBlock,
 			}
 		}
 	}
+}
+
+// foreignClause reports whether cl belongs to other properties than the one being checked.
+func (e *fnEnc) foreignClause(cl *Clause) bool {
+	if len(e.vc.Opt.SafetyProps) == 0 {
+		return false
+	}
+	props := cl.Props
+	if len(props) == 0 && e.contract != nil {
+		props = append(append([]string{}, e.contract.AllProps()...), e.contract.Extra["sweep"]...)
+	}
+	return !hasProp(props, e.vc.Opt.SafetyProps[0])
 }
